@@ -314,8 +314,12 @@ class MessageManager(ClientLike):
                 self.remove_module(module)
                 return False
 
-            for m in self.modules.values():
+            # iterate over a snapshot: logging below may drop a module whose connection fails
+            for m in list(self.modules.values()):
                 if m is module:
+                    continue
+
+                if m.conn not in self.modules:
                     continue
 
                 if m.mod_id == module.mod_id:
@@ -351,6 +355,10 @@ class MessageManager(ClientLike):
             except RuntimeError:
                 self.remove_module(module)
                 return False
+
+        if module.conn not in self.modules:
+            # dropped while its connection request was being logged
+            return False
 
         module.connected = True
 
@@ -699,6 +707,10 @@ class MessageManager(ClientLike):
         header.src_mod_id = cd.MID_MESSAGE_MANAGER
         header.dest_mod_id = src_module.mod_id
         header.num_data_bytes = 0
+
+        if src_module.conn not in self.modules:
+            # dropped while its request was being processed (e.g. a failed log message to it)
+            return
 
         try:
             src_module.send_message(header, b"")
